@@ -43,20 +43,22 @@ var coqPrelude = []string{
 	"Definition U (code : int) (raw : bytes) : proto := PUnknown (N_of_int code) raw.",
 	"Definition EncCaseI (ins : list proto) (m : obs bytes) (d : obs (list proto)) (ids : list int) (gets : list (int * option int)) (valid : bool) : enc_case := EncCase ins m d (map N_of_int ids) (map (fun g => (N_of_int (fst g), option_map nat_of_int (snd g))) gets) valid.",
 	"Definition DecCaseI (b : bytes) (d : obs (list proto)) (alloc : int) : dec_case := DecCase b d (N_of_int alloc).",
+	"Definition HeldCaseI (held : list proto) (m : obs bytes) (d : obs (list proto)) (after : list int) : held_case := HeldCase held m d (map N_of_int after).",
 	"Definition PDecCaseI (k : pkind) (rf : bool) (b : bytes) (d : obs (list proto)) (n : int) : pdec_case := PDecCase k rf b d (nat_of_int n).",
 }
 
 type Replay struct {
-	Mode   string      `json:"mode,omitempty"`  // alias: seq | conc
-	Metas  [][]PSpec   `json:"metas,omitempty"` // alias: the metadata values of the history
-	Kind   string      `json:"kind"`            // enc | dec | alias | proto | proto-roundtrip | equal | misc
-	Specs  []PSpec     `json:"specs,omitempty"`
-	Specs2 []PSpec     `json:"specs2,omitempty"` // equal: the other metadata
-	PKind  string      `json:"pkind,omitempty"`  // proto: bitswap | gateway | gs | unknown
-	Entry  string      `json:"entry,omitempty"`  // proto: U | R | B
-	Ad     *AdScenario `json:"ad,omitempty"`     // adwrap
-	Hex    string      `json:"hex,omitempty"`
-	What   string      `json:"what,omitempty"`
+	Mode   string        `json:"mode,omitempty"`  // alias: seq | conc
+	Metas  [][]PSpec     `json:"metas,omitempty"` // alias: the metadata values of the history
+	Kind   string        `json:"kind"`            // enc | dec | alias | proto | proto-roundtrip | equal | misc
+	Specs  []PSpec       `json:"specs,omitempty"`
+	Specs2 []PSpec       `json:"specs2,omitempty"` // equal: the other metadata
+	PKind  string        `json:"pkind,omitempty"`  // proto: bitswap | gateway | gs | unknown
+	Entry  string        `json:"entry,omitempty"`  // proto: U | R | B
+	Ad     *AdScenario   `json:"ad,omitempty"`     // adwrap
+	Held   *HeldScenario `json:"held,omitempty"`   // held
+	Hex    string        `json:"hex,omitempty"`
+	What   string        `json:"what,omitempty"`
 }
 
 type runner struct {
@@ -334,12 +336,13 @@ func main() {
 	c.Family("lim", req, "lim_case_ok", 50)
 	c.Family("pdec", req, "pdec_case_ok", 500)
 	c.Family("eq", req, "eq_case_ok", 300)
+	c.Family("held", req, "held_case_ok", 400)
 	c.Family("adwrap", append(append([]string{}, coqPrelude...), "From Model Require Import Compose_C05_C13 Compose_C11_C05."), "adwrap_case_ok", 150)
 	adPoolInit(c.Seed)
 	r := &runner{c: c, w: &worker{}, perClass: map[string]int{}, fails: map[string][]vlib.Failure{}, rawDec: map[string][]rawFail{}}
 	defer r.w.stop()
 	defer r.flush()
-	c.Res.Rule = "enc: EXHAUSTIVE over every sequence of length 1..3 (quick) / 1..4 (thorough) of a 12-symbol alphabet {bitswap, gateway, graphsync-filecoin x 4 piece CIDs/flag settings, 6 unknown codes below/between/above the known IDs with payloads 0..128}; SAMPLED: sequences of length 4..6 with random payloads 0..300 B and 9 piece CIDs, unknown payload length sweep 0..300 and 1000..1024, metadata.HTTPV1() combinations, 13..40 protocols with distinct IDs; non-trivial = at least 2 protocols one of which has a variable-length encoding. dec: valid encodings, all their truncations, bit flips, byte edits, all ordered pairs and random trains concatenated as given, hostile/boundary/malformed length prefixes, every varint of valid encodings (protocol code, unknown size, gateway length, the varints inside a CIDv1) re-spelled non-minimally with 1..3 and up-to-10-byte padding, padded size varints in front of payloads overlapping a well-formed protocol sequence at every alignment, hand-written non-canonical DAG-CBOR, random bytes <= 1 KiB; non-trivial = accepted with >= 2 protocols, or rejected input of >= 3 bytes. alias (direct oracle only, no Coq cases): histories of 2..4 different metadata values marshalled in turn with every returned slice kept and re-checked, input buffers overwritten after decoding, Get/Protocols results re-checked after later activity, plus concurrent rounds. pdec: every protocol's UnmarshalBinary / ReadFrom(bytes.Reader) / ReadFrom(bytes.Buffer) called directly on its own encoding (round trip), on every other protocol's encoding, with trailing bytes, truncated, bit-flipped, on malformed/non-minimal varints, hostile sizes, the DAG-CBOR variants and random bytes. eq: Metadata.Equal on all ordered pairs of 27 metadata values (equal, unequal, reordered duplicates, different lengths, an Unknown carrying a known protocol's ID and bytes, values that cannot be marshalled) and sampled perturbations. misc (oracle only): WithProtocol (registered custom protocol round-trips and is retrievable; unregistered code = Unknown; parent context unchanged; override of a built-in code; twice-derived context), ErrInvalidMetadata.Error, unmarshalable values adwrap (composition C11 x C05 x C13): real metadata put into a real schema.Advertisement, signed with a real key (2 ed25519, 1 secp256k1), stored as DAG-CBOR (and DAG-JSON, oracle only), loaded with BytesToAdvertisement, VerifySignature, metadata.UnmarshalBinary of the Metadata field; untouched, and after changing the metadata bytes post-signing (other protocols, appended protocol, reversed order, every non-minimal varint re-spelling, bit flip, truncation, empty, garbage, one flipped bit inside the block) with and without re-signing. lim: largest graphsync link the DAG-CBOR budget admits"
+	c.Res.Rule = "enc: EXHAUSTIVE over every sequence of length 1..3 (quick) / 1..4 (thorough) of a 12-symbol alphabet {bitswap, gateway, graphsync-filecoin x 4 piece CIDs/flag settings, 6 unknown codes below/between/above the known IDs with payloads 0..128}; SAMPLED: sequences of length 4..6 with random payloads 0..300 B and 9 piece CIDs, unknown payload length sweep 0..300 and 1000..1024, metadata.HTTPV1() combinations, 13..40 protocols with distinct IDs; non-trivial = at least 2 protocols one of which has a variable-length encoding. dec: valid encodings, all their truncations, bit flips, byte edits, all ordered pairs and random trains concatenated as given, hostile/boundary/malformed length prefixes, every varint of valid encodings (protocol code, unknown size, gateway length, the varints inside a CIDv1) re-spelled non-minimally with 1..3 and up-to-10-byte padding, padded size varints in front of payloads overlapping a well-formed protocol sequence at every alignment, hand-written non-canonical DAG-CBOR, random bytes <= 1 KiB; non-trivial = accepted with >= 2 protocols, or rejected input of >= 3 bytes. alias (direct oracle only, no Coq cases): histories of 2..4 different metadata values marshalled in turn with every returned slice kept and re-checked, input buffers overwritten after decoding, Get/Protocols results re-checked after later activity, plus concurrent rounds. pdec: every protocol's UnmarshalBinary / ReadFrom(bytes.Reader) / ReadFrom(bytes.Buffer) called directly on its own encoding (round trip), on every other protocol's encoding, with trailing bytes, truncated, bit-flipped, on malformed/non-minimal varints, hostile sizes, the DAG-CBOR variants and random bytes. eq: Metadata.Equal on all ordered pairs of 27 metadata values (equal, unequal, reordered duplicates, different lengths, an Unknown carrying a known protocol's ID and bytes, values that cannot be marshalled) and sampled perturbations. misc (oracle only): WithProtocol (registered custom protocol round-trips and is retrievable; unregistered code = Unknown; parent context unchanged; override of a built-in code; twice-derived context), ErrInvalidMetadata.Error, unmarshalable values held: every way a value comes to hold its protocols (New in every order; then Swap; sort.Reverse; the caller reordering the slice it gave to New; reuse after a failed or truncated UnmarshalBinary; Default and a WithProtocol-derived context) -- the Coq case carries the protocols in the order HELD at marshal time. adwrap (composition C11 x C05 x C13): real metadata put into a real schema.Advertisement, signed with a real key (2 ed25519, 1 secp256k1), stored as DAG-CBOR (and DAG-JSON, oracle only), loaded with BytesToAdvertisement, VerifySignature, metadata.UnmarshalBinary of the Metadata field; untouched, and after changing the metadata bytes post-signing (other protocols, appended protocol, reversed order, every non-minimal varint re-spelling, bit flip, truncation, empty, garbage, one flipped bit inside the block) with and without re-signing. lim: largest graphsync link the DAG-CBOR budget admits"
 	c.Res.Exhaustive = false
 	c.Note(fmt.Sprintf("metadata.MaxMetadataSize = %d", metadata.MaxMetadataSize))
 
@@ -371,6 +374,10 @@ func main() {
 			} else {
 				fmt.Println("oracles hold on this input")
 			}
+		case "held":
+			rep, perr := r.heldOnce(*rp.Held)
+			fmt.Printf("replay held: %s\n  held at marshal time: %d protocols, prepare error %q\n  MarshalBinary: %s %s\n  Protocols() afterwards: %x\n  UnmarshalBinary of that: %s %s\n  %s\n", rp.Held.sig(), len(rep.Held), rep.PrepErr, rep.MarshalOut, rep.Hex, rep.After, rep.DecOut, rep.DecMsg, perr)
+			r.doHeld(*rp.Held)
 		case "adwrap":
 			fmt.Printf("replay adwrap: %s\n", rp.Ad.sig())
 			r.doAdwrap(*rp.Ad)
@@ -495,6 +502,9 @@ func main() {
 		}
 		r.doEnc("many-distinct", specs)
 	}
+
+	// ---- every way a value comes to hold its protocols ---------------------
+	r.heldAll(al)
 
 	// ---- per-protocol entry points -----------------------------------------
 	rp2 := c.Rng.Fork("proto")
